@@ -68,13 +68,27 @@ def build_and_validate_headers(headers: Iterable[Tuple[bytes, bytes]]) -> List[T
     # Validates that the header name and value are bytes
     validated_headers: List[Tuple[bytes, bytes]] = []
     for name, value in headers:
-        # The name as it would be sent, i.e. without the surrounding
-        # whitespace, must be neither a pseudo header nor empty
-        validated_name = validate_header_part(name)
-        if validated_name[:1] in {b"", b":"}:
-            raise ValueError("Pseudo headers are not valid")
-        validated_headers.append((validated_name, validate_header_part(value)))
+        validated_headers.append((validate_header_name(name), validate_header_part(value)))
     return validated_headers
+
+
+# The characters of a field name (a token, RFC 9110 section 5.1)
+_TOKEN_CHARACTERS = frozenset(
+    b"!#$%&'*+-.^_`|~0123456789ABCDEFGHIJKLMNOPQRSTUVWXYZabcdefghijklmnopqrstuvwxyz"
+)
+
+
+def validate_header_name(name: bytes) -> bytes:
+    # The name as it would be sent, i.e. without the surrounding
+    # whitespace, must be neither a pseudo header nor empty and must
+    # be a token: anything else cannot be framed (h11 refuses it, a
+    # HTTP/2 peer treats it as a malformed message).
+    validated_name = validate_header_part(name)
+    if validated_name[:1] in {b"", b":"}:
+        raise ValueError("Pseudo headers are not valid")
+    if not _TOKEN_CHARACTERS.issuperset(validated_name):
+        raise ValueError("Header names must be tokens")
+    return validated_name
 
 
 def validate_header_part(part: bytes) -> bytes:
